@@ -12,8 +12,8 @@ import (
 	"oss.terrastruct.com/d2/d2plugin"
 	"oss.terrastruct.com/d2/d2renderers/d2svg"
 	"oss.terrastruct.com/d2/d2target"
-	"oss.terrastruct.com/d2/lib/textmeasure"
 	nd "oss.terrastruct.com/d2/internal/verifnd"
+	"oss.terrastruct.com/d2/lib/textmeasure"
 )
 
 // ---- recording stand-ins (engine only) for what render does to the world:
